@@ -125,3 +125,104 @@ Theorem C09_round_at_pred_half :
   substring_pos "12345" 0 (0 + 1) = ""%string.
 Proof. exact xround_pred_half. Qed.
 Print Assumptions C09_round_at_pred_half.
+
+(* ------------------------------------------------------------------ *)
+(* END TO END, from the TEXT of a call (arguments: string literal or predicate-free path, taken as
+   the string-value of its first node): Compile succeeds and the value is the declarative
+   specification applied to the string values of the arguments. *)
+From XP Require Import Parse Build Api.
+From XP.Proofs Require Import HashInj RoundTripOps RoundTripPaths EndToEndValues.
+Open Scope string_scope.
+
+Theorem C09_end_to_end_contains_family : forall D has_ns hc rm rn rr,
+  hash_ok (hc D) (all_nodes D) ->
+  forall re_ok ns fn F l w,
+  In (fn, F) [("contains", FContains); ("starts-with", FStartsWith); ("ends-with", FEndsWith)] ->
+  is_operand_px l -> not_number l ->
+  xok (XCall fn (args2 l (XStr w))) -> (1 + osize l <= max_build_depth)%nat ->
+  exists q,
+    compile re_ok (print_min (XCall fn (args2 l (XStr w)))) ns = Ok q /\
+    compile re_ok (print_sp (XCall fn (args2 l (XStr w)))) ns = Ok q /\
+    forall c, valid D c = true ->
+    exists m b, opval D has_ns l c m /\ evaluate rm rn rr hc D has_ns q c = Val (VBool b) /\
+      match F with
+      | FContains => b = true <-> is_substring w (str_or_first D m)
+      | FStartsWith => b = true <-> is_prefix w (str_or_first D m)
+      | _ => b = true <-> is_suffix w (str_or_first D m)
+      end.
+Proof. exact C09_text_contains_family. Qed.
+Print Assumptions C09_end_to_end_contains_family.
+
+Theorem C09_end_to_end_substring_before_after : forall D has_ns hc rm rn rr,
+  hash_ok (hc D) (all_nodes D) ->
+  forall re_ok ns (after : bool) l r,
+  is_operand_px l -> is_operand_px r ->
+  let fn := if after then "substring-after" else "substring-before" in
+  xok (XCall fn (args2 l r)) -> (1 + osize l <= max_build_depth)%nat -> (1 + osize r <= max_build_depth)%nat ->
+  exists q,
+    compile re_ok (print_min (XCall fn (args2 l r))) ns = Ok q /\
+    compile re_ok (print_sp (XCall fn (args2 l r))) ns = Ok q /\
+    forall c, valid D c = true ->
+    exists m n res, opval D has_ns l c m /\ opval D has_ns r c n /\
+      evaluate rm rn rr hc D has_ns q c = Val (VStr res) /\
+      if after then is_substring_after (str_or_first D m) (str_or_first D n) res
+      else is_substring_before (str_or_first D m) (str_or_first D n) res.
+Proof. exact C09_text_substring_before_after. Qed.
+Print Assumptions C09_end_to_end_substring_before_after.
+
+Theorem C09_end_to_end_concat : forall D has_ns hc rm rn rr,
+  hash_ok (hc D) (all_nodes D) ->
+  forall re_ok ns l r,
+  is_operand_px l -> is_operand_px r ->
+  xok (XCall "concat" (args2 l r)) -> (1 + osize l <= max_build_depth)%nat -> (1 + osize r <= max_build_depth)%nat ->
+  exists q,
+    compile re_ok (print_min (XCall "concat" (args2 l r))) ns = Ok q /\
+    compile re_ok (print_sp (XCall "concat" (args2 l r))) ns = Ok q /\
+    forall c, valid D c = true ->
+    exists m n, opval D has_ns l c m /\ opval D has_ns r c n /\
+      evaluate rm rn rr hc D has_ns q c = Val (VStr (str_or_first D m ++ str_or_first D n)).
+Proof. exact C09_text_concat. Qed.
+Print Assumptions C09_end_to_end_concat.
+
+Theorem C09_end_to_end_string_length : forall D has_ns hc rm rn rr,
+  hash_ok (hc D) (all_nodes D) ->
+  forall re_ok ns l,
+  is_operand_px l -> xok (XCall "string-length" (AOne l)) -> (1 + osize l <= max_build_depth)%nat ->
+  exists q,
+    compile re_ok (print_min (XCall "string-length" (AOne l))) ns = Ok q /\
+    compile re_ok (print_sp (XCall "string-length" (AOne l))) ns = Ok q /\
+    forall c, valid D c = true ->
+    exists m, opval D has_ns l c m /\
+      evaluate rm rn rr hc D has_ns q c = Val (VNum (of_Z (Z.of_nat (String.length (str_or_first D m))))).
+Proof. exact C09_text_string_length. Qed.
+Print Assumptions C09_end_to_end_string_length.
+
+Theorem C09_end_to_end_normalize_space : forall D has_ns hc rm rn rr,
+  hash_ok (hc D) (all_nodes D) ->
+  forall re_ok ns l,
+  is_operand_px l -> xok (XCall "normalize-space" (AOne l)) -> (1 + osize l <= max_build_depth)%nat ->
+  exists q,
+    compile re_ok (print_min (XCall "normalize-space" (AOne l))) ns = Ok q /\
+    compile re_ok (print_sp (XCall "normalize-space" (AOne l))) ns = Ok q /\
+    forall c, valid D c = true ->
+    exists m, opval D has_ns l c m /\
+      evaluate rm rn rr hc D has_ns q c = Val (VStr (normalize_space_spec (str_or_first D m))).
+Proof. exact C09_text_normalize_space. Qed.
+Print Assumptions C09_end_to_end_normalize_space.
+
+Theorem C09_end_to_end_translate : forall D has_ns hc rm rn rr,
+  hash_ok (hc D) (all_nodes D) ->
+  forall re_ok ns a b x,
+  is_operand_px a -> is_operand_px b -> is_operand_px x ->
+  not_number a -> not_number b -> not_number x ->
+  xok (XCall "translate" (args3 a b x)) ->
+  (1 + osize a <= max_build_depth)%nat -> (1 + osize b <= max_build_depth)%nat -> (1 + osize x <= max_build_depth)%nat ->
+  exists q,
+    compile re_ok (print_min (XCall "translate" (args3 a b x))) ns = Ok q /\
+    compile re_ok (print_sp (XCall "translate" (args3 a b x))) ns = Ok q /\
+    forall c, valid D c = true ->
+    exists va vb vx, opval D has_ns a c va /\ opval D has_ns b c vb /\ opval D has_ns x c vx /\
+      evaluate rm rn rr hc D has_ns q c =
+        Val (VStr (translate_spec (str_or_first D va) (str_or_first D vb) (str_or_first D vx))).
+Proof. exact C09_text_translate. Qed.
+Print Assumptions C09_end_to_end_translate.
